@@ -148,6 +148,29 @@ def _mask_key(node):
     return ast.unparse(node)
 
 
+def _reachable_text(project: Project, fi) -> str:
+    """source text of the function and of every module-level function / class of its module it refers to by name,
+    transitively (closures and helper factories included)"""
+    m = fi.module
+    by_name = {}
+    for q, g in project.functions.items():
+        if g.module is m and g.parent is None and g.cls is None:
+            by_name[g.name] = g.node
+    seen, todo, out = set(), [fi.node], []
+    while todo:
+        nd = todo.pop()
+        if id(nd) in seen:
+            continue
+        seen.add(id(nd))
+        out.append(ast.unparse(nd))
+        for x in ast.walk(nd):
+            if isinstance(x, ast.Name) and x.id in by_name and id(by_name[x.id]) not in seen:
+                todo.append(by_name[x.id])
+            elif isinstance(x, ast.Name) and x.id in m.globals and isinstance(m.globals[x.id], ast.AST) and id(m.globals[x.id]) not in seen:
+                todo.append(m.globals[x.id])
+    return "\n".join(out)
+
+
 def check_lcc(project: Project, rep, fi):
     from .common import fn_view
     f = fn_view(project, fi)
@@ -158,6 +181,10 @@ def check_lcc(project: Project, rep, fi):
             if "isinf" in t or "inf" in t:
                 branch = n
     if branch is None:
+        if "isinf" in _reachable_text(project, fi) or "inf" in _reachable_text(project, fi):
+            rep.unmodelled("GH-LCC", fi, f, "the handling of a disconnected graph is not a branch of this function (it lives in a "
+                                            "helper / closure this rule does not read)")
+            return
         rep.refuted("GH-LCC", fi, f, "no branch handles a disconnected graph (infinite shortest-path distances)",
                     construct=f"{fi.qualname}: disconnected branch")
         return
@@ -166,6 +193,9 @@ def check_lcc(project: Project, rep, fi):
             and project.resolve(fi.module, n.func, local_names(f)) == "warnings.warn"]
     if warn:
         rep.discharged("GH-LCC", fi, warn[0], "a warning is emitted on the disconnected path", nontrivial=False)
+    elif "warn" in _reachable_text(project, fi):
+        rep.unmodelled("GH-LCC", fi, branch, "whether the disconnected path warns was not recognised (a warning function is "
+                                             "reachable, but not called by name in the branch)")
     else:
         rep.refuted("GH-LCC", fi, branch, "the disconnected graph is replaced by a component without a warning")
     # the distance-matrix variable: assigned from shortest_path
